@@ -353,6 +353,12 @@ func (e *Engine) mapLen(st *State, m VMap) Term {
 		st.assume(Ge(t, IntLit(0)))
 		return t
 	}
+	if obj.Has.S != "" {
+		lt := App(SInt, "m.len.has", obj.Has)
+		e.needLenHas = true
+		st.fact(Ge(lt, IntLit(0)))
+		return lt
+	}
 	// len(m) == 0  <=>  all entries absent (array extensionality keeps this quantifier-free)
 	eff := obj.Arr
 	if obj.NilT.S != "" && !obj.NilT.IsFalse() {
@@ -414,7 +420,10 @@ func (e *Engine) lookup(st *State, fr *Frame, in *ssa.Lookup) bool {
 						idxI = i
 					}
 				}
+				hasT := st.declare(fmt.Sprintf("maphas.%s.%s", sanitize(obj.Name), sanitize(key)), SBool)
 				st2 := st.clone()
+				st2.assume(Not(hasT))
+				st.assume(hasT)
 				o2 := obj.clone()
 				if o2.Found == nil {
 					o2.Found = map[string]Term{}
@@ -436,7 +445,7 @@ func (e *Engine) lookup(st *State, fr *Frame, in *ssa.Lookup) bool {
 				if o1.Found == nil {
 					o1.Found = map[string]Term{}
 				}
-				val = e.havoc(st, mt.Elem(), "mapval")
+				val = e.entryValue(st, obj, key)
 				o1.Entries[key] = val
 				o1.Found[key] = TTrue
 				if ks, ok := idx.(VSym); ok {
@@ -456,6 +465,14 @@ func (e *Engine) lookup(st *State, fr *Frame, in *ssa.Lookup) bool {
 					val = e.zeroOf(mt.Elem())
 				}
 			}
+		} else if isSym && obj.Has.S != "" {
+			raw := Select(obj.Arr, ks.T, obj.ValSort)
+			if lo, hi, ok := intRange(mt.Elem()); ok {
+				st.fact(And(Ge(raw, mkT(lo, SInt)), Le(raw, mkT(hi, SInt))))
+			}
+			found = Select(obj.Has, ks.T, SBool)
+			zs := e.zeroOf(mt.Elem()).(VSym)
+			val = sym(Ite(found, raw, zs.T))
 		} else if isSym {
 			raw := Select(obj.Arr, ks.T, obj.ValSort)
 			found = Not(Eq(raw, obj.Absent))
@@ -547,6 +564,9 @@ func (e *Engine) mapUpdate(st *State, fr *Frame, in *ssa.MapUpdate) bool {
 				return true
 			}
 			n.Arr = Store(n.Arr, kt.T, e.mapValTerm(st, n, val))
+			if n.Has.S != "" {
+				n.Has = Store(n.Has, kt.T, TTrue)
+			}
 		}
 		st.heap[cell] = n
 	default:
@@ -602,6 +622,8 @@ func (e *Engine) mapDelete(st *State, m, key Value, pos string) {
 			n.Entries[showValue(key)] = VNil{}
 			n.Found[showValue(key)] = TFalse
 		}
+	} else if kt, ok := key.(VSym); ok && n.Has.S != "" {
+		n.Has = Store(n.Has, kt.T, TFalse)
 	} else if kt, ok := key.(VSym); ok {
 		if n.NilT.S != "" && !n.NilT.IsFalse() {
 			n.Arr = Ite(n.NilT, n.Arr, Store(n.Arr, kt.T, n.Absent))
@@ -704,6 +726,10 @@ func (e *Engine) rangeInit(st *State, fr *Frame, in *ssa.Range) bool {
 		} else if obj.Struct {
 			// input map with structured values: arbitrary-entry iteration under the generic loop rule
 			it.arbitrary = obj.Typ
+		} else if obj.Has.S != "" {
+			st.incomplete = "range over a presence-tracked scalar map is not modelled at " + e.pos(in.Pos())
+			e.endPath(st)
+			return false
 		} else {
 			it.sym = e.symRangeInit(st, fr, in, obj, m.Cell)
 		}
@@ -759,4 +785,14 @@ func (e *Engine) rangeNext(st *State, fr *Frame, in *ssa.Next) bool {
 		fr.regs[in] = VTuple{[]Value{sym(TFalse), e.zeroOf(tt.At(1).Type()), e.zeroOf(tt.At(2).Type())}}
 	}
 	return true
+}
+
+// entryValue: the (lazily materialised) value of an existing entry of a structured input map, named by map and key so
+// that every state and the contract evaluator agree on it.
+func (e *Engine) entryValue(st *State, obj *MapObj, key string) Value {
+	name := obj.Name
+	if name == "" {
+		name = fmt.Sprintf("map%d", e.nextID())
+	}
+	return e.symbolicOf(st, obj.Typ.Elem(), name+"["+key+"]", 0)
 }
